@@ -515,6 +515,12 @@ impl<'a> Exec<'a> {
                 let Some(text) = faults::part_get(&m, *part) else { return out };
                 let n = text.chars().count();
                 let mut rng = Rng::new(*seed);
+                // "every position" is every position up to a few thousand characters; beyond
+                // that (a payload carrying a scanned document) a seeded sample of that many
+                let sample = match sample {
+                    None if n > 3000 => &Some(3000),
+                    s => s,
+                };
                 let positions: Vec<usize> = match sample {
                     None => (0..=n).collect(),
                     Some(k) => {
@@ -644,12 +650,15 @@ impl<'a> Exec<'a> {
                     Fmt::Json => m.to_json(case.kb_enc, &case.extra),
                 };
                 let n = s.chars().count();
+                // every stride-th length up to 4000 cuts; longer messages (scanned documents):
+                // the first 2000 lengths at the stride, then 2000 evenly spaced ones
+                let stride = (*stride).max(1);
                 let mut k = 0;
                 while k < n {
                     let mut c = plain.clone();
                     c.wire.push(WireFault::Truncate(k));
                     out.push(c);
-                    k += (*stride).max(1);
+                    k += if n / stride > 4000 && k >= 2000 * stride { (n / 2000).max(stride) } else { stride };
                 }
             }
             Expand::PayloadFlipEvery { key, alg, stride } => {
